@@ -149,7 +149,7 @@ TYPED_CALL = (
     ['npint', 4], ['npfloat', 1.5],
     ['str', ''], ['str', 'abc'], ['str', '3'], ['str', 'TRUE'],
     ['str', '1e3'], ['str', ' '], ['str', '10:00Z'], ['Text', 'xyz'],
-    ['Text', '12'],
+    ['Text', '12'], ['str', 'abc%'], ['str', '%'], ['str', '5%'],
     ['bool', True], ['bool', False], ['Boolean', True],
     ['None'], ['BLANK'],
     ['datetime', [2020, 1, 1]], ['DateTime', [2020, 1, 1]],
@@ -167,6 +167,7 @@ TYPED_FORMULA = (
     (['str', 'abc'], 'lit'), (['str', ''], 'lit'), (['str', '3'], 'lit'),
     (['str', 'TRUE'], 'lit'), (['str', 'abc'], 'cell'),
     (['str', '3'], 'cell'), (['str', ''], 'cell'), (['str', '10:00Z'], 'lit'),
+    (['str', 'abc%'], 'lit'), (['str', '5%%'], 'cell'), (['str', '%'], 'lit'),
     (['bool', True], 'lit'), (['bool', False], 'lit'),
     (['bool', True], 'cell'), (['None'], 'cell'),
     (['datetime', [2020, 1, 1]], 'lit'), (['datetime', [2020, 1, 1]], 'cell'),
@@ -267,6 +268,12 @@ def execute(inp):
         formula = '=%s%s%s' % (texts[0], SYM[fn], texts[1])
     elif form == 'prefix':
         formula = '=%s%s' % (SYM[fn], texts[0])
+    elif form == 'prefix2':           # the "double unary" idiom --x
+        formula = '=%s%s%s' % (SYM[fn], SYM[fn], texts[0])
+    elif form == 'prefix3':
+        formula = '=%s(%s%s%s)' % (SYM[fn], SYM[fn], SYM[fn], texts[0])
+    elif form == 'prefix-in-sum':     # 1+--x
+        formula = '=1+%s%s%s' % (SYM[fn], SYM[fn], texts[0])
     elif form == 'postfix':
         formula = '=%s%s' % (texts[0], SYM[fn])
     elif form == 'nested-left':       # (a op1 b) op2 c
@@ -436,6 +443,16 @@ def gen_a(shard, tier):
                                 'route:' + rname],
                        'key': 'C07/a/%s/%s/route=%s' % (op, skey(spec),
                                                         rname)}
+                if op == 'OP_NEG' and rname != 'call':
+                    # an error passes through any number of signs
+                    for f2 in ('prefix2', 'prefix3', 'prefix-in-sum'):
+                        yield {'g': 'a', 'fn': op, 'form': f2,
+                               'args': [spec], 'route': 'formula',
+                               'hows': hows, 'judge': 'propagate',
+                               'tags': ['grp:a', 'op:' + op, 'errpos:0',
+                                        'route:' + rname, 'form:' + f2],
+                               'key': 'C07/a/%s/%s/%s/route=%s' % (
+                                   op, f2, skey(spec), rname)}
 
 
 def judged_positions(row):
